@@ -235,13 +235,18 @@ Section Exec.
       | _ => Fail
       end
     | OP_array_skip =>
-      if o_validate o && negb (match pvalue (parse_fuel inp) true (91 :: inp) with Some (j, _) => strict_jv j | None => true end)
-      then Unknown else
-      (* native skip_array: the rest of the array is read in the state "first element or ]": a `]` right away
-         is accepted (also after a comma) *)
-      match pvalue (parse_fuel inp) (o_validate o) (91 :: inp) with
-      | Some (_, r) => Next (adv s r)
-      | None => Fail
+      (* since fix b376c30: lspace, a `]` here (right after the comma that follows the last decoded element) is an
+         invalid character; then native skip_array reads the rest of the array *)
+      match skip_ws inp with
+      | [] => Fail
+      | c :: _ as inp' =>
+        if c =? 93 then Fail else
+        if o_validate o && negb (match pvalue (parse_fuel inp') true (91 :: inp') with Some (j, _) => strict_jv j | None => true end)
+        then Unknown else
+        match pvalue (parse_fuel inp') (o_validate o) (91 :: inp') with
+        | Some (_, r) => Next (adv s r)
+        | None => Fail
+        end
       end
     | OP_array_clear | OP_array_clear_p =>
       (* mem_clear_rem: from VP (an element of the array saved on the stack) to the end of the array *)
